@@ -7,6 +7,15 @@ PENDING = "check not built yet in this session (construction order: DESIGN.md se
 NOT_APPLICABLE = {("C%02d" % i): PENDING for i in range(1, 21)}
 
 TEXT = {
+    "C06": {
+        "text": "Round trip with exact width, alphabet and arbitrary trailing bytes, 'EncodeLength fails iff', the decode bounds, exact read and rejection of short / "
+                "non-numeral prefixes are theorems for all six families with any positive digit count, the fixed prefixers and BerTLV, for every Go int n >= 0 "
+                "(no bound on n below 2^63); the registry theorem ties the 43+1 exported objects (regenerated from the library) to the model's prefixers; "
+                "model and library are run side by side on exhaustive small lengths, all boundaries, all short prefix strings and BER long forms.",
+        "design_ref": "DESIGN.md section 6 C06",
+        "note": "Trusted: Coq kernel, hand-written model of prefix/*.go incl. the strconv/fmt/big.Int behaviour it uses (validated by correspondence), translator for the registry, extraction/driver, Go harness.",
+        "technique": "Rocq theorems over a Gallina model + generated registry + differential correspondence",
+    },
     "C07": {
         "text": "Round trip with arbitrary trailing bytes for all nine encoders and every in-domain value, the nibble layout of BCD/LBCD, upper-case hex, "
                 "bijectivity of the EBCDIC tables and their agreement with hand-entered CP500/CP1047 reference points, the BER tag continuation rule "
